@@ -89,6 +89,7 @@ const (
 	Mixed                        // rules with an odd number assign $$ from all $i, even ones only record
 	PlainCopy                    // `$$ = $1` (with a field conversion where the tags differ), no recorder: many rules share one action text
 	Bare                         // rules with an even number and a non-empty right-hand side have NO action block at all, the others as UseAll
+	Padded                       // as UseAll, every reference but $8 and $9 written with a leading zero: $01 ... $07, $010, $011 (the number is decimal)
 )
 
 // IsBare reports whether rule r gets no action block under the shape.
@@ -129,6 +130,9 @@ func ActionFor(r int, rule gram.Rule, tags Tags, shape ActionShape) string {
 		}
 		xt := tags[x]
 		ref := fmt.Sprintf("$%d", i+1)
+		if shape == Padded && i+1 != 8 && i+1 != 9 {
+			ref = fmt.Sprintf("$0%d", i+1)
+		}
 		switch {
 		case xt == "":
 			continue
@@ -164,6 +168,10 @@ type Decorated struct {
 	// inside the action - on the global parser between PushContex()/PopContex(), on a fresh context
 	// with -o - with the recorder switched to a throw-away run. The outer parse must not notice.
 	Nested bool
+	// Lazy: the lexer treats the value cell it is handed like yacc's yylval: it does not clear it, and
+	// the number it stores for a token is the number it finds in the cell plus the token's own (the
+	// cell is the only memory a lexer of an -o parser has). One cell per Parser() call in every driver.
+	Lazy bool
 }
 
 // Decorate returns a copy of s with union, tags, types and harness actions;
@@ -236,6 +244,14 @@ func (d *Decorated) Source(variant, pkg string) string {
 			}
 		}
 	}
+	// every harness action stands between two block comments (a generator that loses the text between
+	// the first and the last comment of an action loses the action)
+	s.Rules = append([]gram.Rule(nil), s.Rules...)
+	for i := range s.Rules {
+		if s.Rules[i].Action != "" {
+			s.Rules[i].Action = " /* action of rule " + fmt.Sprint(i+1) + " */" + s.Rules[i].Action + "/* end of action */ "
+		}
+	}
 	if variant == TS {
 		// fields are initialised so that an unassigned $$ reads as 0 / "" as in Go
 		s.Union = "\n n :number = 0;\n s :string = \"\";\n"
@@ -275,7 +291,23 @@ func (d *Decorated) goEpilogue(pkg string, object bool) string {
 	// token code, a negative one other than -1)
 	b.WriteString("\t}\n\thxMax := 0\n\tfor _, hxC := range []int{" + strings.Join(codes, ", ") + "} {\n\t\tif hxC > hxMax {\n\t\t\thxMax = hxC\n\t\t}\n\t}\n")
 	b.WriteString("\tswitch hxPos % 4 {\n\tcase 1:\n\t\treturn hxMax + 1\n\tcase 2:\n\t\treturn -7\n\tcase 3:\n\t\treturn hxMax + 2\n\t}\n\treturn 0\n}\n")
-	b.WriteString(`
+	if d.Lazy {
+		b.WriteString(`
+func GetToken(hxInput string, hxVal *ValType, hxPosPtr *int) int {
+	rt.Fetch()
+	if *hxPosPtr >= len(hxInput) {
+		return -1
+	}
+	hxCh := hxInput[*hxPosPtr]
+	hxPos := *hxPosPtr
+	*hxPosPtr++
+	hxVal.n = (hxVal.n + rt.TokN(hxCh, hxPos)) % rt.Mod
+	hxVal.s = rt.TokS(hxCh, hxPos)
+	return tokCode(hxCh, hxPos)
+}
+`)
+	} else {
+		b.WriteString(`
 func GetToken(hxInput string, hxVal *ValType, hxPosPtr *int) int {
 	rt.Fetch()
 	*hxVal = ValType{}
@@ -289,6 +321,9 @@ func GetToken(hxInput string, hxVal *ValType, hxPosPtr *int) int {
 	hxVal.s = rt.TokS(hxCh, hxPos)
 	return tokCode(hxCh, hxPos)
 }
+`)
+	}
+	b.WriteString(`
 func hs(r int, xs ...string) string { return rt.HS(r, xs...) }
 func hn(r int, xs ...int) int       { return rt.HN(r, xs...) }
 func sn(x int) string               { return rt.SN(x) }
@@ -323,8 +358,9 @@ func nest() {
 	}
 	inner := rt.Begin(100000)
 	inner.Inner = true
-	trace := IsTrace
-	IsTrace = false
+	if IsTrace {
+		fmt.Println("<nested-parse>") // the trace of the inner parse is cut out by the reader of the outer one
+	}
 	PushContex()
 	func() {
 		defer func() { recover() }()
@@ -332,7 +368,9 @@ func nest() {
 		Parser(outer.Input[len(outer.Input)/2:] + outer.Input[:len(outer.Input)/2]) // the two halves swapped: another token sequence
 	}()
 	PopContex()
-	IsTrace = trace
+	if IsTrace {
+		fmt.Println("</nested-parse>")
+	}
 	rt.Cur = outer
 }
 func Run(input string, trace bool, r *rt.Run, init bool) (res rt.Result) {
@@ -367,16 +405,15 @@ func nest() {
 	}
 	inner := rt.Begin(100000)
 	inner.Inner = true
-	trace := IsTrace
-	if trace {
-		IsTrace = false
+	if IsTrace {
+		fmt.Println("<nested-parse>")
 	}
 	func() {
 		defer func() { recover() }()
 		MakeParserContext().Parser(outer.Input[len(outer.Input)/2:] + outer.Input[:len(outer.Input)/2])
 	}()
-	if trace {
-		IsTrace = true
+	if IsTrace {
+		fmt.Println("</nested-parse>")
 	}
 	rt.Cur = outer
 }
@@ -432,7 +469,28 @@ func (d *Decorated) tsEpilogue() string {
 	}
 	b.WriteString("\t}\n\tlet hxMax = 0;\n\tfor (const hxC of [" + strings.Join(codes, ", ") + "]) {\n\t\tif (hxC > hxMax) { hxMax = hxC; }\n\t}\n")
 	b.WriteString("\tswitch (hxPos % 4) {\n\tcase 1: return hxMax + 1;\n\tcase 2: return -7;\n\tcase 3: return hxMax + 2;\n\t}\n\treturn 0; // not a token\n}\n")
-	b.WriteString(`
+	if d.Lazy {
+		b.WriteString(`
+function GetToken(hxInput :string, model:{ValType :ValType, pos :number}) :number {
+	RT.fetch();
+	if (model.pos >= hxInput.length) {
+		return -1;
+	}
+	let hxCh = hxInput.charCodeAt(model.pos);
+	let hxPos = model.pos;
+	model.pos++;
+	// the literal translation of the Go lexer: one cell, allocated once, updated in place
+	if (!model.ValType) {
+		model.ValType = new ValType();
+		model.ValType.n = 0;
+	}
+	model.ValType.n = (model.ValType.n + RT.tokN(hxCh, hxPos)) % 1000003;
+	model.ValType.s = RT.tokS(hxCh, hxPos);
+	return tokCode(hxCh, hxPos);
+}
+`)
+	} else {
+		b.WriteString(`
 function GetToken(hxInput :string, model:{ValType :ValType, pos :number}) :number {
 	RT.fetch();
 	model.ValType = new ValType();
@@ -446,6 +504,9 @@ function GetToken(hxInput :string, model:{ValType :ValType, pos :number}) :numbe
 	model.ValType.s = RT.tokS(hxCh, hxPos);
 	return tokCode(hxCh, hxPos);
 }
+`)
+	}
+	b.WriteString(`
 function hs(r :number, ...xs :string[]) :string { return RT.hs(r, xs); }
 function hn(r :number, ...xs :number[]) :number { return RT.hn(r, xs); }
 function sn(x :number) :string { return RT.sn(x); }
